@@ -54,7 +54,11 @@ SN_ALPHA = ['train_nas_only', 'train_net_only', 'train_net_and_nas', 'temperatur
 # head is output-connected although it is not the node feeding the output)
 # 'mps-layer-1d': a Conv1d network (MPSConv1d forwards the options on its own)
 # 'pit-dense-head': the output is cat(cat(cat(fc, fq), fb), fz) - every classifier is frozen
+# 'pit-reuse-split': one conv invoked twice - the first result is summed into the network output behind
+# three element-wise ops (so a reverse BFS reaches the *other* call site first), the second feeds a
+# hidden conv: the layer, the head and (through the layer's single input mask) `mid` are frozen
 MODELS = {'pit': PIT_ALPHA, 'pit-trailing': PIT_ALPHA, 'pit-dense-head': PIT_ALPHA,
+          'pit-reuse-split': PIT_ALPHA,
           'mps-layer': MPS_ALPHA,
           'mps-channel': MPS_ALPHA, 'mps-layer-1d': MPS_ALPHA, 'supernet': SN_ALPHA}
 
@@ -113,6 +117,21 @@ def build_model(kind):
     from plinio import cost as pc
     if kind.startswith('pit'):
         prog = pit_program(trailing=kind == 'pit-trailing', dense_head=kind == 'pit-dense-head')
+        if kind == 'pit-reuse-split':
+            prog = pitgen.reuse_split_program(random.Random(11), '2d', 3, 'out')
+            # a searchable stage in front, so that the model keeps trainable masks
+            c = prog['inputs'][0][0]
+            for op in prog['ops']:
+                for key in ('src',):
+                    if op.get(key) == 'x0':
+                        op[key] = 'z1'
+                if 'srcs' in op:
+                    op['srcs'] = ['z1' if s_ == 'x0' else s_ for s_ in op['srcs']]
+            prog['ops'] = [{'op': 'conv', 'name': 'stem', 'src': 'x0', 'out': 'z', 'cin': c, 'cout': 5,
+                            'k': 3, 'd': 1, 's': 1, 'pad': 'same', 'bias': True, 'dw': False},
+                           {'op': 'act', 'kind': 'relu_f', 'src': 'z', 'out': 'z0'},
+                           {'op': 'conv', 'name': 'stem2', 'src': 'z0', 'out': 'z1', 'cin': 5, 'cout': c,
+                            'k': 3, 'd': 1, 's': 1, 'pad': 'same', 'bias': True, 'dw': False}] + prog['ops']
         model, nas, xs = pitlib.convert_pit(prog, 1, cost=pc.params, train_mode=True)
         x = pitgen.example_inputs(prog, 2, 3)
         return nas, x, prog
